@@ -1,7 +1,7 @@
 '''C15 - generated tasks correspond one-to-one to what was asked for.'''
 import ast
 
-from ..rules import memo
+from ..rules import memo, patterns
 from ..astutil import txt, call_name
 from ..mutate import (Variant, edit_module, find_func, replace_first,
                       remove_stmt, insert_stmt, parse_stmts, parse_expr)
@@ -58,9 +58,10 @@ def check(ctx):
     ctx.run(memo.check_use_pure)
     ctx.run(memo.check_factory_pure)
     ctx.run(memo.check_close_fresh)
+    ctx.run(patterns.check_patterns, ID)
 
 
-def variants(program):
+def _variants(program):
     out = []
 
     def add(name, kind, mod, editor, expect=None, quick=False, note=''):
@@ -305,3 +306,8 @@ def variants(program):
             lambda n: parse_expr('all_tasks.update(deps | soft_deps)'))
     add('twin-single-update-of-the-union', 'twin', TASK, closure_union)
     return out
+
+
+def variants(program):
+    from ..variants import patterns as _pv
+    return list(_variants(program)) + _pv.variants(program, ID)
